@@ -604,7 +604,14 @@ Section WithEnv.
                         tl ce (ff_md5 f) (r_md5chk o) (r_al o) (r_as o) (r_nal o) (r_writer o) (r_bw o) (Some fdt_id)
                         (r_nb_alloc o) (r_alloc_size o) (ff_clen f) (ff_nocache f) in
         let o2 := init_partition o1 in
-        let (o3, c3) := init_writer o2 c in
+        let (o3a, c3a) := init_writer o2 c in
+        (* D48: an empty object has no block to wait for - the packet that created the receiver was the whole
+           object and may have come before the FDT: it is complete as soon as it has its writer *)
+        let (o3, c3) :=
+          match r_tlen o3a, r_oti o3a, r_state o3a, r_writer o3a with
+          | Some 0, Some _, Receiving, Some _ => complete o3a c3a
+          | _, _, _, _ => (o3a, c3a)
+          end in
         let (o4, c4) := push_from_cache o3 c3 in
         let '(o5, c5) := match write_blocks (S (length (r_blocks o4))) 0 o4 c4 with
                          | (ROk x, cx) => (x, cx)
